@@ -28,7 +28,8 @@ package handler
 //@ pred noLeak(ctx *Context) := forall g {fopen[g]} :: fopen[g] && !old(fopen[g]) ==> held(ctx, g)
 
 //@ func Handler.HandleOpenDir results(ok)
-//@   tags C04,C05,C06,C13
+//@   tags C04,C05,C06,C13,C01
+//@   requires confined(path) @path-confined
 //@   requires h != nil && h.Fs != nil && ctx != nil
 //@   modifies ctx.State.CwdHandle, fopen, fpos, iofaults
 //@   ensures[C05] fsw == old(fsw) @no-write
@@ -45,6 +46,7 @@ package handler
 
 //@ pred wfState(ctx *Context) := ctx != nil && (ctx.State.CDSectorSize == 0 || cdSize(ctx.State.CDSectorSize))
 //@   && (ctx.State.ROFile != nil ==> limbase[ctx.State.ROFile] == 0)
+//@   && (ctx.State.CwdHandle != nil ==> confined(fpath[ctx.State.CwdHandle]))
 
 //@ func wrapFileInfoForExtendedTimes results(ret)
 //@   trusted
@@ -60,7 +62,8 @@ package handler
 //@   ensures[C13] forall g {fopen[g]} :: fopen[g] ==> old(fopen[g]) @nothing-opened
 
 //@ func Handler.HandleOpenFile results(fi, err)
-//@   tags C04,C05,C13,C17,C02
+//@   tags C04,C05,C13,C17,C02,C01
+//@   requires confined(path) @path-confined
 //@   requires h != nil && h.Fs != nil && ctx != nil
 //@   modifies ctx.State.ROFile, ctx.State.CDSectorSize, fopen, fpos, iofaults
 //@   ensures[C05] fsw == old(fsw) @no-write
@@ -102,7 +105,8 @@ package handler
 //@   loop 1 invariant 0 <= s && s < $idx && 0 <= j && j < 2048 ==> wdata[wsink(w)][old(wn[wsink(w)]) + 2048 * s + j] == fcontent[ctx.State.ROFile][24 + (startSector + s) * ctx.State.CDSectorSize + j] @user-data
 
 //@ func Handler.HandleCreateFile results(err)
-//@   tags C05,C04,C13
+//@   tags C05,C04,C13,C01
+//@   requires confined(path) @path-confined
 //@   requires h != nil && h.Fs != nil && ctx != nil
 //@   modifies ctx.State.WOFile, fopen, fpos, iofaults, fsw
 //@   ensures[C05] !h.AllowWrite ==> err == ErrWriteForbidden && fsw == old(fsw) && fopen == old(fopen) && ctx.State.WOFile == old(ctx.State.WOFile) @refused
@@ -123,7 +127,8 @@ package handler
 //@   ensures[C13] fopen == old(fopen)
 
 //@ func Handler.HandleDeleteFile results(err)
-//@   tags C05,C04,C13
+//@   tags C05,C04,C13,C01
+//@   requires confined(path) @path-confined
 //@   requires h != nil && h.Fs != nil
 //@   modifies iofaults, fsw
 //@   ensures[C05] !h.AllowWrite ==> err == ErrWriteForbidden && fsw == old(fsw) @refused
@@ -131,7 +136,8 @@ package handler
 //@   ensures[C13] fopen == old(fopen)
 
 //@ func Handler.HandleMkdir results(err)
-//@   tags C05,C04,C13
+//@   tags C05,C04,C13,C01
+//@   requires confined(path) @path-confined
 //@   requires h != nil && h.Fs != nil
 //@   modifies iofaults, fsw
 //@   ensures[C05] !h.AllowWrite ==> err == ErrWriteForbidden && fsw == old(fsw) @refused
@@ -139,7 +145,8 @@ package handler
 //@   ensures[C13] fopen == old(fopen)
 
 //@ func Handler.HandleRmdir results(err)
-//@   tags C05,C04,C13
+//@   tags C05,C04,C13,C01
+//@   requires confined(path) @path-confined
 //@   requires h != nil && h.Fs != nil
 //@   modifies iofaults, fsw
 //@   ensures[C05] !h.AllowWrite ==> err == ErrWriteForbidden && fsw == old(fsw) @refused
@@ -147,7 +154,8 @@ package handler
 //@   ensures[C13] fopen == old(fopen)
 
 //@ func Handler.HandleStatFile results(fi, err)
-//@   tags C05,C06,C04,C13
+//@   tags C05,C06,C04,C13,C01
+//@   requires confined(path) @path-confined
 //@   requires h != nil && h.Fs != nil
 //@   modifies iofaults
 //@   ensures[C05] fsw == old(fsw)
@@ -157,7 +165,8 @@ package handler
 //@   ensures[C06] iofaults == old(iofaults) && pexists(path) ==> err == nil @found
 
 //@ func Handler.HandleGetDirSize results(n, err)
-//@   tags C05,C06,C04,C13
+//@   tags C05,C06,C04,C13,C01
+//@   requires confined(path) @path-confined
 //@   requires h != nil && h.Fs != nil
 //@   modifies iofaults, walkroot
 //@   ensures[C05] fsw == old(fsw)
@@ -184,8 +193,8 @@ package handler
 //@ pred filesNotWire(ctx *Context) := (ctx.State.WOFile != nil ==> wsink(ctx.State.WOFile) == ctx.State.WOFile && ctx.State.WOFile != ctx.rd.Reader) && (ctx.State.ROFile != nil ==> ctx.State.ROFile != ctx.rd.Reader) && (ctx.State.CwdHandle != nil ==> ctx.State.CwdHandle != ctx.rd.Reader)
 
 //@ func Handler.HandleReadDirEntry results(fi)
-//@   tags C04,C05,C06,C13
-//@   requires h != nil && h.Fs != nil && ctx != nil
+//@   tags C04,C05,C06,C13,C01
+//@   requires h != nil && h.Fs != nil && wfState(ctx)
 //@   modifies ctx.State.CwdHandle, fopen, iofaults
 //@   ensures[C05] fsw == old(fsw) @no-write
 //@   ensures[C13] noLeak(ctx) && (fi == nil && old(ctx.State.CwdHandle) != nil ==> ctx.State.CwdHandle == nil && !fopen[old(ctx.State.CwdHandle)]) @closed-at-end
@@ -193,8 +202,8 @@ package handler
 //@   loop 1 invariant ctx.State.CwdHandle != nil && ctx.State.CwdHandle == old(ctx.State.CwdHandle) && fopen == old(fopen) && fsw == old(fsw) && iofaults >= old(iofaults)
 
 //@ func Handler.HandleReadDir results(files)
-//@   tags C04,C05,C06,C13
-//@   requires h != nil && h.Fs != nil && ctx != nil
+//@   tags C04,C05,C06,C13,C01
+//@   requires h != nil && h.Fs != nil && wfState(ctx)
 //@   alloc 1<<50
 //@   modifies iofaults
 //@   ensures[C05] fsw == old(fsw) @no-write
@@ -202,7 +211,7 @@ package handler
 //@   ensures[C06] forall y {at(files, y)} :: base(files) <= y && y < end(files) ==> at(files, y) != nil @entries-valid
 //@   loop 1 invariant iofaults >= old(iofaults) && fsw == old(fsw) && fopen == old(fopen) && len(files) <= $idx
 //@   loop 1 invariant forall y {at(files, y)} :: base(files) <= y && y < end(files) ==> at(files, y) != nil @entries-valid
-//@   loop 1 invariant forall y {at(entries, y)} :: base(entries) <= y && y < end(entries) ==> at(entries, y) != nil @source-valid
+//@   loop 1 invariant forall y {at(entries, y)} :: base(entries) <= y && y < end(entries) ==> at(entries, y) != nil && simple(finame[at(entries, y)]) @source-valid
 
 //@ func Handler.HandleReadFile results(err)
 //@   tags C02,C04,C05,C13
